@@ -233,6 +233,7 @@ type Spec struct {
 	Args []any  ` + "`json:\"args,omitempty\"`" + `
 	Deps []string ` + "`json:\"deps,omitempty\"`" + ` // service ids injected after Args
 	Tags []string ` + "`json:\"tags,omitempty\"`" + ` // tags (priority 0) of an overriding service
+	Scope string ` + "`json:\"scope,omitempty\"`" + ` // declared scope of an overriding service
 }
 
 type Session struct {
@@ -379,6 +380,14 @@ func runOp(c any, ctxs map[string]context.Context, op Op) (res Result) {
 		}
 		for _, t := range op.Val.Tags {
 			s.Tag(t, 0)
+		}
+		switch op.Val.Scope {
+		case "shared":
+			s.SetScopeShared()
+		case "contextual":
+			s.SetScopeContextual()
+		case "non_shared":
+			s.SetScopeNonShared()
 		}
 		api.OverrideService(op.Name, s)
 		return Result{V: Node{"t": "nil"}}
